@@ -127,6 +127,8 @@ package collector
 //@     && (forall d in [0, 4294967296): forall i in [0, 65536): tplHas(cp, d, i) ==> tplOf(cp, d, i) != nil)
 //@     && (forall d1 in [0, 4294967296): forall d2 in [0, 4294967296): d1 != d2 && has(cp.templatesMap, d1) && has(cp.templatesMap, d2) ==> cp.templatesMap[d1] != cp.templatesMap[d2])
 
+//@ pure tmr(t *template) *time.Timer = t.expiryTimer.(*time.Timer)
+
 //@ func (cp *CollectingProcess) addTemplate(obsDomainID, templateID, elementsWithValue) ()
 //@   requires cp:   cp != nil && !cp.mutex.held && !cp.mutex.rheld && storeShape(cp) && !isnil(cp.clock)
 //@   requires el:   elemsNN(elementsWithValue, len(elementsWithValue))
@@ -138,8 +140,14 @@ package collector
 //@   ensures  others: forall d2 in [0, 4294967296): forall i2 in [0, 65536): (d2 != obsDomainID || i2 != templateID) ==>
 //@                    tplHas(cp, d2, i2) == old(tplHas(cp, d2, i2)) && (tplHas(cp, d2, i2) ==> tplOf(cp, d2, i2) == old(tplOf(cp, d2, i2)))
 //@   ensures  lock: !cp.mutex.held
-//@   modifies cp.mutex.held, cp.templatesMap[*], cp.templatesMap[obsDomainID][*],
-//@            cp.templatesMap[obsDomainID][templateID].ies, cp.templatesMap[obsDomainID][templateID].expiryTime, cp.templatesMap[obsDomainID][templateID].expiryTimer
+//@   // C10: over UDP every (re)transmission sets the expiry to now + TTL and leaves exactly this template's timer armed for that instant
+//@   ensures  ttl:  cp.protocol == "udp" ==> tplOf(cp, obsDomainID, templateID).expiryTime == $lastNow + cp.templateTTL && !isnil(tplOf(cp, obsDomainID, templateID).expiryTimer)
+//@                    && tmr(tplOf(cp, obsDomainID, templateID)).armed && tmr(tplOf(cp, obsDomainID, templateID)).due == $lastNow + cp.templateTTL
+//@   ensures  sametimer: old(tplHas(cp, obsDomainID, templateID)) && !isnil(old(tplOf(cp, obsDomainID, templateID).expiryTimer)) ==> tplOf(cp, obsDomainID, templateID).expiryTimer == old(tplOf(cp, obsDomainID, templateID).expiryTimer)
+//@   ensures  tcp:  cp.protocol != "udp" && old(tplHas(cp, obsDomainID, templateID)) ==> tplOf(cp, obsDomainID, templateID).expiryTimer == old(tplOf(cp, obsDomainID, templateID).expiryTimer)
+//@   modifies cp.mutex.held, $lastNow, cp.templatesMap[*], cp.templatesMap[obsDomainID][*],
+//@            cp.templatesMap[obsDomainID][templateID].ies, cp.templatesMap[obsDomainID][templateID].expiryTime, cp.templatesMap[obsDomainID][templateID].expiryTimer,
+//@            tmr(cp.templatesMap[obsDomainID][templateID]).armed, tmr(cp.templatesMap[obsDomainID][templateID]).due
 //@   loop 1 invariant cnt: 0 <= $i && $i <= len(elementsWithValue) && len(elements) == $i && cp.mutex.held && fresh(elements)
 //@   loop 1 invariant els: forall j in [0, $i): elements[j] == ie(elementsWithValue[j])
 //@   loop 1 invariant map: has(cp.templatesMap, obsDomainID) && cp.templatesMap[obsDomainID] != nil
@@ -156,7 +164,9 @@ package collector
 //@   ensures  shape: storeShape(cp)
 //@   ensures  wf:   old(storeWF(cp)) ==> storeWF(cp)
 //@   ensures  lock: !cp.mutex.held
-//@   modifies cp.mutex.held, cp.templatesMap[*], cp.templatesMap[obsDomainID][*]
+//@   // C10: a removed template has no armed timer
+//@   ensures  stopped: r && !isnil(old(tplOf(cp, obsDomainID, templateID)).expiryTimer) ==> !tmr(old(tplOf(cp, obsDomainID, templateID))).armed
+//@   modifies cp.mutex.held, cp.templatesMap[*], cp.templatesMap[obsDomainID][*], tmr(cp.templatesMap[obsDomainID][templateID]).armed
 //@   loop 1 invariant cnt: 0 <= $i && $i <= len(condFns) && cp.mutex.held
 //@   loop 1 decreases len(condFns) - $i
 
@@ -168,7 +178,7 @@ package collector
 //@   ensures  shape: storeShape(cp)
 //@   ensures  wf:   old(storeWF(cp)) ==> storeWF(cp)
 //@   ensures  lock: !cp.mutex.held
-//@   modifies cp.mutex.held, cp.templatesMap[*], cp.templatesMap[obsDomainID][*]
+//@   modifies cp.mutex.held, cp.templatesMap[*], cp.templatesMap[obsDomainID][*], tmr(cp.templatesMap[obsDomainID][templateID]).armed
 
 //@ func (cp *CollectingProcess) decodeTemplateSet(templateBuffer, obsDomainID) (set, err)
 //@   requires cp:    cp != nil && !cp.mutex.held && !cp.mutex.rheld && storeShape(cp) && !isnil(cp.clock)
@@ -189,8 +199,9 @@ package collector
 //@                    && len(theDSet(set).records) == 1 && is(theDSet(set).records[0], *templateRecord)
 //@   ensures  errnil: err != nil ==> isnil(set)
 //@   ensures  lock:  !cp.mutex.held && !cp.mutex.rheld
-//@   modifies templateBuffer.buf, cp.mutex.held, cp.templatesMap[*], cp.templatesMap[obsDomainID][*],
-//@            cp.templatesMap[obsDomainID][be16(templateBuffer.buf, 0)].ies, cp.templatesMap[obsDomainID][be16(templateBuffer.buf, 0)].expiryTime, cp.templatesMap[obsDomainID][be16(templateBuffer.buf, 0)].expiryTimer
+//@   modifies templateBuffer.buf, cp.mutex.held, $lastNow, cp.templatesMap[*], cp.templatesMap[obsDomainID][*],
+//@            cp.templatesMap[obsDomainID][be16(templateBuffer.buf, 0)].ies, cp.templatesMap[obsDomainID][be16(templateBuffer.buf, 0)].expiryTime, cp.templatesMap[obsDomainID][be16(templateBuffer.buf, 0)].expiryTimer,
+//@            tmr(cp.templatesMap[obsDomainID][be16(templateBuffer.buf, 0)]).armed, tmr(cp.templatesMap[obsDomainID][be16(templateBuffer.buf, 0)]).due
 
 // ---------------------------------------------------------------------------
 // decodePacket (C03 header/dispatch, C04 right template, C11 delivery)
@@ -220,7 +231,8 @@ package collector
 //@            cp.templatesMap[be32(packetBuffer.buf, 12)][*],
 //@            cp.templatesMap[be32(packetBuffer.buf, 12)][be16(packetBuffer.buf, 20)].ies,
 //@            cp.templatesMap[be32(packetBuffer.buf, 12)][be16(packetBuffer.buf, 20)].expiryTime,
-//@            cp.templatesMap[be32(packetBuffer.buf, 12)][be16(packetBuffer.buf, 20)].expiryTimer
+//@            cp.templatesMap[be32(packetBuffer.buf, 12)][be16(packetBuffer.buf, 20)].expiryTimer, $lastNow,
+//@            tmr(cp.templatesMap[be32(packetBuffer.buf, 12)][be16(packetBuffer.buf, 20)]).armed, tmr(cp.templatesMap[be32(packetBuffer.buf, 12)][be16(packetBuffer.buf, 20)]).due
 
 // ---------------------------------------------------------------------------
 // TCP framing (C11): one message per iteration, cut where the header says, nothing after the first failure
@@ -269,3 +281,32 @@ package collector
 //@   callpre net.ListenUDP noplain: !cp.isEncrypted
 //@   callpre github.com/pion/dtls/v2.Listen secure: cp.isEncrypted && config != nil && len(config.Certificates) == 1 && config.ExtendedMasterSecret == dtls.RequireExtendedMasterSecret && !config.InsecureSkipVerify
 //@   modifies *
+
+// ---------------------------------------------------------------------------
+// UDP template lifetime (C10): the timer callback, whenever it runs, removes the template iff its lifetime has elapsed
+// ---------------------------------------------------------------------------
+
+//@ // the condition the callback hands to deleteTemplateWithConds: "not refreshed since": expiry time not after the instant read by the callback
+//@ func (cp *CollectingProcess) addTemplate$1$1(tpl) (r)
+//@   requires t: tpl != nil
+//@   ensures  r: r <==> tpl.expiryTime <= *now
+//@   noeffect
+
+//@ func (cp *CollectingProcess) addTemplate$1() ()
+//@   requires cp:   *cp != nil && !(*cp).mutex.held && !(*cp).mutex.rheld && storeShape(*cp) && !isnil((*cp).clock)
+//@   requires st:   tplHas(*cp, *obsDomainID, *templateID) ==> tplOf(*cp, *obsDomainID, *templateID) != nil
+//@   inline deleteTemplateWithConds
+//@   // this caller passes exactly one condition, the closure above: once it has been evaluated (and did not stop the deletion) the template is due
+//@   loop deleteTemplateWithConds.1 invariant passed: len(condFns) == 1 && ($i > 0 ==> template.expiryTime <= $lastNow)
+//@   // no template is dropped early: a refresh that moved the expiry time past the callback's clock reading keeps it, whatever the timer did
+//@   ensures  early:   old(tplHas(*cp, *obsDomainID, *templateID)) && old(tplOf(*cp, *obsDomainID, *templateID).expiryTime) > $lastNow ==>
+//@                     tplHas(*cp, *obsDomainID, *templateID) && tplOf(*cp, *obsDomainID, *templateID) == old(tplOf(*cp, *obsDomainID, *templateID))
+//@   // none outlives its lifetime once its timer has run
+//@   ensures  expired: old(tplHas(*cp, *obsDomainID, *templateID)) && old(tplOf(*cp, *obsDomainID, *templateID).expiryTime) <= $lastNow ==> !tplHas(*cp, *obsDomainID, *templateID)
+//@   ensures  stopped: old(tplHas(*cp, *obsDomainID, *templateID)) && !tplHas(*cp, *obsDomainID, *templateID) && !isnil(old(tplOf(*cp, *obsDomainID, *templateID)).expiryTimer) ==> !tmr(old(tplOf(*cp, *obsDomainID, *templateID))).armed
+//@   ensures  others:  forall d2 in [0, 4294967296): forall i2 in [0, 65536): (d2 != *obsDomainID || i2 != *templateID) ==>
+//@                     tplHas(*cp, d2, i2) == old(tplHas(*cp, d2, i2)) && (tplHas(*cp, d2, i2) ==> tplOf(*cp, d2, i2) == old(tplOf(*cp, d2, i2)))
+//@   ensures  clock:   $lastNow >= old($lastNow)
+//@   ensures  lock:    !(*cp).mutex.held
+//@   replay tplttl
+//@   modifies (*cp).mutex.held, $lastNow, (*cp).templatesMap[*], (*cp).templatesMap[*obsDomainID][*], tmr((*cp).templatesMap[*obsDomainID][*templateID]).armed
